@@ -67,3 +67,116 @@ pub proof fn lemma_bio_tvo_gamma(fs: Seq<BF>, v: Seq<Term>, i: int, b: &Bdd)
     ensures bio_tvo(b) == gamma_at(fs, tvs(v), i)
 { lemma_const_ne(); lemma_cof_cofv(fs[i], v); }
 pub proof fn lemma_terms_of_tvs(v: Seq<Bdd>) ensures tvs(terms_of(v)) =~= bio_tvs(v) { lemma_const_ne(); }
+// ---- biodivine-side compilation (C09) and the single-formula rewriting (C03): a common abstract syntax for the crate's
+// Formula and the dependency's BooleanExpression
+pub enum AbsF { Const(bool), Var(Seq<char>), Not(Box<AbsF>), And(Box<AbsF>, Box<AbsF>), Or(Box<AbsF>, Box<AbsF>), Xor(Box<AbsF>, Box<AbsF>), Imp(Box<AbsF>, Box<AbsF>), Iff(Box<AbsF>, Box<AbsF>) }
+pub open spec fn f_abs(f: Formula) -> AbsF
+    decreases f
+{
+    match f {
+        Formula::Top => AbsF::Const(true), Formula::Bot => AbsF::Const(false), Formula::Atom(a) => AbsF::Var(a@),
+        Formula::Not(x) => AbsF::Not(Box::new(f_abs(*x))),
+        Formula::And(x, y) => AbsF::And(Box::new(f_abs(*x)), Box::new(f_abs(*y))), Formula::Or(x, y) => AbsF::Or(Box::new(f_abs(*x)), Box::new(f_abs(*y))),
+        Formula::Imp(x, y) => AbsF::Imp(Box::new(f_abs(*x)), Box::new(f_abs(*y))), Formula::Xor(x, y) => AbsF::Xor(Box::new(f_abs(*x)), Box::new(f_abs(*y))),
+        Formula::Iff(x, y) => AbsF::Iff(Box::new(f_abs(*x)), Box::new(f_abs(*y))),
+    }
+}
+pub open spec fn e_abs(e: BooleanExpression) -> AbsF
+    decreases e
+{
+    match e {
+        BooleanExpression::Const(b) => AbsF::Const(b), BooleanExpression::Variable(s) => AbsF::Var(s@),
+        BooleanExpression::Not(x) => AbsF::Not(Box::new(e_abs(*x))),
+        BooleanExpression::And(x, y) => AbsF::And(Box::new(e_abs(*x)), Box::new(e_abs(*y))), BooleanExpression::Or(x, y) => AbsF::Or(Box::new(e_abs(*x)), Box::new(e_abs(*y))),
+        BooleanExpression::Imp(x, y) => AbsF::Imp(Box::new(e_abs(*x)), Box::new(e_abs(*y))), BooleanExpression::Xor(x, y) => AbsF::Xor(Box::new(e_abs(*x)), Box::new(e_abs(*y))),
+        BooleanExpression::Iff(x, y) => AbsF::Iff(Box::new(e_abs(*x)), Box::new(e_abs(*y))),
+    }
+}
+pub open spec fn asem(a: AbsF, idx: spec_fn(Seq<char>) -> Option<usize>) -> BF
+    decreases a
+{
+    match a {
+        AbsF::Const(b) => bf_const(b), AbsF::Var(s) => bf_var(idx(s).unwrap()), AbsF::Not(x) => bf_not(asem(*x, idx)),
+        AbsF::And(x, y) => bf_and(asem(*x, idx), asem(*y, idx)), AbsF::Or(x, y) => bf_or(asem(*x, idx), asem(*y, idx)),
+        AbsF::Xor(x, y) => bf_xor(asem(*x, idx), asem(*y, idx)), AbsF::Imp(x, y) => bf_imp(asem(*x, idx), asem(*y, idx)), AbsF::Iff(x, y) => bf_iff(asem(*x, idx), asem(*y, idx)),
+    }
+}
+pub proof fn lemma_fsem_asem(f: Formula, vc: &VarContainer)
+    ensures fsem(f, vc) == asem(f_abs(f), |s: Seq<char>| vc_index(vc, s))
+    decreases f
+{
+    match f {
+        Formula::Top => {}, Formula::Bot => {}, Formula::Atom(a) => {},
+        Formula::Not(x) => { lemma_fsem_asem(*x, vc); }
+        Formula::And(x, y) => { lemma_fsem_asem(*x, vc); lemma_fsem_asem(*y, vc); } Formula::Or(x, y) => { lemma_fsem_asem(*x, vc); lemma_fsem_asem(*y, vc); }
+        Formula::Imp(x, y) => { lemma_fsem_asem(*x, vc); lemma_fsem_asem(*y, vc); } Formula::Xor(x, y) => { lemma_fsem_asem(*x, vc); lemma_fsem_asem(*y, vc); }
+        Formula::Iff(x, y) => { lemma_fsem_asem(*x, vc); lemma_fsem_asem(*y, vc); }
+    }
+}
+pub proof fn lemma_esem_asem(e: BooleanExpression, vs: &BddVariableSet)
+    ensures esem(e, vs) == asem(e_abs(e), |s: Seq<char>| vs_index(vs, s))
+    decreases e
+{
+    match e {
+        BooleanExpression::Const(b) => {}, BooleanExpression::Variable(s) => {},
+        BooleanExpression::Not(x) => { lemma_esem_asem(*x, vs); }
+        BooleanExpression::And(x, y) => { lemma_esem_asem(*x, vs); lemma_esem_asem(*y, vs); } BooleanExpression::Or(x, y) => { lemma_esem_asem(*x, vs); lemma_esem_asem(*y, vs); }
+        BooleanExpression::Imp(x, y) => { lemma_esem_asem(*x, vs); lemma_esem_asem(*y, vs); } BooleanExpression::Xor(x, y) => { lemma_esem_asem(*x, vs); lemma_esem_asem(*y, vs); }
+        BooleanExpression::Iff(x, y) => { lemma_esem_asem(*x, vs); lemma_esem_asem(*y, vs); }
+    }
+}
+// the biodivine variable set and the ADF dictionary number the statements identically
+pub open spec fn names_agree(vs: &BddVariableSet, vc: &VarContainer) -> bool { forall|s: Seq<char>| #[trigger] vs_index(vs, s) == vc_index(vc, s) }
+pub proof fn lemma_compile_agree(f: Formula, e: BooleanExpression, vs: &BddVariableSet, vc: &VarContainer)
+    requires e_abs(e) == f_abs(f), names_agree(vs, vc),
+    ensures esem(e, vs) == fsem(f, vc)
+{
+    lemma_fsem_asem(f, vc); lemma_esem_asem(e, vs);
+    assert((|s: Seq<char>| vs_index(vs, s)) =~= (|s: Seq<char>| vc_index(vc, s)));
+}
+pub proof fn lemma_compile_agree_all(f: Formula, vs: &BddVariableSet, vc: &VarContainer)
+    requires names_agree(vs, vc),
+    ensures forall|e: BooleanExpression| e_abs(e) == f_abs(f) ==> #[trigger] esem(e, vs) == fsem(f, vc)
+{
+    assert forall|e: BooleanExpression| e_abs(e) == f_abs(f) implies #[trigger] esem(e, vs) == fsem(f, vc) by { lemma_compile_agree(f, e, vs, vc); }
+}
+#[verifier::external_body]
+fn __o_str_to_string(s: &str) -> (r: String) ensures r@ == s@ { s.to_string() }
+// outlined std expressions of adfbiodivine::Adf::from_parser (rule O)
+#[verifier::external_body]
+fn __o_parser_names(parser: &AdfParser) -> (r: Vec<String>) ensures r@.len() == p_names(parser).len(), forall|i: int| 0 <= i < r@.len() ==> (#[trigger] r@[i])@ == p_names(parser)[i] { unimplemented!() }
+#[verifier::external_body]
+fn __o_as_str_vec<'a>(v: &'a Vec<String>) -> (r: Vec<&'a str>) ensures r@.len() == v@.len(), forall|i: int| 0 <= i < r@.len() ==> (#[trigger] r@[i])@ == v@[i]@ { v.iter().map(<_>::as_ref).collect() }
+impl Adf {
+    // every statement with a formula carries that formula's function (C09, biodivine side)
+    pub open spec fn compiled(&self, p: &AdfParser) -> bool {
+        &&& self.ac@.len() == p_n(p)
+        &&& forall|k: int| 0 <= k < p_order(p).len() ==> bio_den(&self.ac@[#[trigger] p_order(p)[k] as int]) == fsem(p_formula(p, k), &p_vc(p))
+    }
+    pub open spec fn names_ok(&self) -> bool {
+        &&& names_agree(&self.varset, &self.ordering)
+        &&& vs_n(&self.varset) == self.ac@.len()
+        &&& forall|i: int| 0 <= i < self.ac@.len() ==> vc_name(&self.ordering, i).is_some()
+    }
+}
+// the parsed formulae as functions, in insertion order
+pub open spec fn p_fsems(p: &AdfParser) -> Seq<BF> { Seq::new(p_order(p).len(), |j: int| fsem(p_formula(p, j), &p_vc(p))) }
+impl Adf {
+    // a stored rewriting is implied by the per-statement rewriting: it has every two-valued model among its models (C03)
+    pub open spec fn rewrite_ok(&self) -> bool {
+        match self.rewrite { Some(b) => bio_nv(&b) == self.ac@.len() && forall|a: Asg| #[trigger] rep_sem(bio_dens(self.ac@), self.ac@.len() as int)(a) ==> bio_den(&b)(a), None => true }
+    }
+}
+// ASSUMED (dependency): sat_valuations enumerates, for every satisfying assignment, a valuation that agrees with it on the
+// variables of the diagram's variable set
+pub open spec fn val_agrees(v: &BddValuation, a: Asg, n: nat) -> bool { forall|x: usize| x < n ==> #[trigger] val_at(v, x) == a(x) }
+#[verifier::external_body]
+fn __o_sat_valuations(b: &Bdd) -> (r: Vec<BddValuation>)
+    ensures forall|a: Asg| #[trigger] bio_den(b)(a) ==> exists|j: int| 0 <= j < r@.len() && val_agrees(&r@[j], a, bio_nv(b))
+{ unimplemented!() }
+// the two-valued interpretation read off a valuation
+pub open spec fn val_terms(v: &BddValuation, n: nat) -> Seq<Term> { Seq::new(n, |i: int| if val_at(v, i as usize) { Term(1) } else { Term(0) }) }
+// the candidate list has every two-valued model of `den` (as an interpretation of length n)
+pub open spec fn has_models(r: Seq<Vec<Term>>, den: BF, n: nat) -> bool {
+    forall|v: Seq<Term>| v.len() == n && (forall|j: int| 0 <= j < n ==> decided(#[trigger] v[j])) && #[trigger] den(asg_of(tvs(v))) ==> exists|j: int| 0 <= j < r.len() && r[j]@ == v
+}
